@@ -34,7 +34,9 @@ CLAIMED = {
         "update changes nothing, whatever Squash it carried: empty, the same mode, another mode, the same mode in another spelling) plus Serviceable. TLC checks every reachable configuration of a reduced field set exhaustively, then enumerates "
         "all sequences of one and two and a residue class of sequences of three update templates; the harness applies them to real instances "
         "(the first whole-struct template is the argument of New) and logs GetExportOptions, attribute-cache and worker-pool sizes in force and "
-        "a LOOKUP, a 16 KiB READ and a 100-byte WRITE through the real handler after every call; TLC validates every recorded step.",
+        "a LOOKUP, a 16 KiB READ and a 100-byte WRITE through the real handler after every call; every update call runs under a watchdog (a "
+        "call that does not return is a recorded observation the trace spec rejects), every rejected update is followed by an UpdatePolicyOptions "
+        "call restating the policy in force, and extra templates touch one sub-field of Timeouts at a time or install partly filled structs; TLC validates every recorded step.",
    note="boolean fields, AllowedIPs and TLS are outside the abstraction; requests that would panic an unrecovered goroutine (negative transfer "
         "size, nil Timeouts) are issued only in three directed child processes; nil Timeouts/Log in UpdateExportOptions may keep the value in "
         "force (accepted either way); four listed findings F16, F16b, F16c, F16d"),
